@@ -271,7 +271,7 @@ func genDoc(r *RNG, o docOpts) *DocSpec {
 	}
 	d.Frags = []string{s.Types[0].Name}
 	if d.Kind == "resource" || d.Kind == "identifier" {
-		d.Frags = append(d.Frags, "some-id")
+		d.Frags = append(d.Frags, r.Pick([]string{"some-id", "some-id", "a b", "50%", "é/x", "a%20b", "q?x=1#f"}))
 	}
 	if r.Chance(1, 8) {
 		d.Links = map[string]string{"next": "/n?page=2", "about": genString(r)}
